@@ -403,6 +403,95 @@ def s_split_to_sequence(ctx):
     ctx.check("C04.folding.split_to_sequence.returns_normally", True, CL04)
 
 
+def s_split_to_sequence_semantics(ctx):
+    """SplitToSequence(x, split, axis, keepdims) -> SequenceConstruct(parts of Split): the replacement sequence has as many elements as the
+    original, element i is chunk i of x along the axis with the chunk length the operator documents, and KEEPS the split axis
+    (ONNX: 'keepdims ... If input split is specified, this attribute is ignored' — and the evaluator only handles a given split)."""
+    import math
+    import onnx_ir as ir
+    from .irmodel import OutRef
+    I = Interp(ctx)
+    W = World(I)
+    state = new_state(I)
+    d = [6, 7][ctx.choose(2, "extent of the split axis")]
+    x = W.value("x", dims=[d, 3], rt=[], dtype=ir.DataType.FLOAT)
+    kind = ["scalar constant", "1-D constant", "1-D non-constant with annotated length"][ctx.choose(3, "split operand")]
+    if kind == "scalar constant":
+        c = [1, 2, 4, 6, 7, 9][ctx.choose(6, "chunk size")]
+        want = [c] * (d // c) + ([d % c] if d % c else [])
+        sp = W.value("split", dims=[], rt=[], dtype=ir.DataType.INT64, const=W.tensor([c], ir.DataType.INT64, ndim=0))
+    elif kind == "1-D constant":
+        parts = [[1] * d, [2, d - 2], [d]][ctx.choose(3, "chunk lengths")]
+        want = list(parts)
+        sp = W.value("split", dims=[len(parts)], rt=[], dtype=ir.DataType.INT64, const=W.tensor(parts, ir.DataType.INT64, ndim=1))
+    else:
+        want = ["split[0]", "split[1]"]
+        sp = W.value("split", dims=[2], rt=[], dtype=ir.DataType.INT64, const=None, graph_input=True)
+    axis = [None, 0, -2][ctx.choose(3, "axis")]
+    keepdims = [None, 0, 1][ctx.choose(3, "keepdims")]
+    attrs = {}
+    if axis is not None:
+        attrs["axis"] = axis
+    if keepdims is not None:
+        attrs["keepdims"] = keepdims
+    node = W.node("SplitToSequence", [x, sp], attrs=attrs)
+    node.fields["outputs"][0].fields["name"] = "seq"
+    op = OpRecorder()
+    try:
+        r = run_eval(I, _cf().split_to_sequence, node, op, state)
+    except PyRaise as e:
+        ctx.check("C04.folding.split_to_sequence.never_raises", False, CL04)
+        return
+    if r is None:
+        ctx.cover("split_to_sequence.kept")
+        return
+    ctx.cover("split_to_sequence.rewritten")
+    P = "C03.folding.split_to_sequence."
+    CL = "C03: 'returns the same outputs - count, element types, shapes and values' (ONNX SplitToSequence / Split operator documentation)"
+    ok = isinstance(r, Call) and r.op == "SequenceConstruct" and not {k for k in r.kwargs if not k.startswith("_")}
+    ctx.check(P + "replacement_is_a_sequence_of_the_parts", ok, CL)
+    if not ok:
+        return
+    ctx.check(P + "same_number_of_sequence_elements", len(r.args) == len(want), CL)
+    if len(r.args) != len(want):
+        return
+
+    def element(e):
+        """-> (chunk length along axis 0, rank) of a recorded value, from the documented meaning of Split / Squeeze"""
+        if isinstance(e, Call) and e.op == "Squeeze":
+            ln, rank = element(e.args[0])
+            return ln, rank - 1
+        call, idx = (e.call, e.index) if isinstance(e, OutRef) else (e, 0)
+        if not (isinstance(call, Call) and call.op == "Split" and call.args[0] is x and call.kwargs.get("axis", 0) in (0, -2)):
+            return None, None
+        nout = call.kwargs.get("_outputs")
+        nout = len(nout) if isinstance(nout, (list, tuple)) else (nout or 1)
+        if len(call.args) > 1 and call.args[1] is not None:
+            sizes = call.args[1]
+            if sizes is sp:
+                lens = list(want) if kind != "scalar constant" else None     # Split needs a 1-D `split`
+            elif isinstance(sizes, Call) and sizes.op == "Constant":
+                lens = list(sizes.kwargs.get("value_ints") or [])
+            else:
+                lens = None
+            if lens is None or len(lens) != nout or "num_outputs" in call.kwargs:
+                return None, None
+            return lens[idx], 2
+        n = call.kwargs.get("num_outputs")
+        if n != nout or not isinstance(n, int) or n <= 0:
+            return None, None
+        # Split-18 with num_outputs: equal chunks, the last one smaller if the extent is not divisible
+        size = math.ceil(d / n)
+        lens = [size] * (n - 1) + [d - size * (n - 1)]
+        return lens[idx], 2
+    got = [element(e) for e in r.args]
+    ctx.check(P + "element_i_is_chunk_i_with_the_documented_length", [g[0] for g in got] == want, CL)
+    if keepdims == 0:
+        ctx.check(P + "elements_keep_the_split_axis_keepdims_is_ignored_when_split_is_given", all(g[1] == 2 for g in got), CL)
+    else:
+        ctx.check(P + "elements_keep_the_split_axis", all(g[1] == 2 for g in got), CL)
+
+
 def _mk(fn, *a):
     def run(ctx):
         return fn(ctx, *a)
@@ -426,6 +515,9 @@ SCENARIOS = [
     Scenario("C03.folding.cast", s_cast, F("cast", "cast_like", "_get_input_element_type")),
     Scenario("C04.folding.graph_input_guard", s_graph_input_guard, F("_get_numpy_value", "_get_bool_value", "OptimizerState.get_shape_value")),
     Scenario("C04.folding.split_to_sequence", s_split_to_sequence, F("split_to_sequence"), kind="bounded", bound=BOUND, max_paths=20000),
+    Scenario("C03.folding.split_to_sequence", s_split_to_sequence_semantics, F("split_to_sequence"), kind="bounded",
+             bound="x of shape [6,3] / [7,3] split along axis 0; split: constant scalar in {1,2,4,6,7,9}, constant 1-D (3 patterns), non-constant 1-D of annotated length 2; axis absent / 0 / -2; keepdims absent / 0 / 1",
+             trusted=TRUST + ["ONNX SplitToSequence-11 / Split-18 operator documentation (chunk lengths; keepdims ignored when split is given)"]),
 ]
 
 
